@@ -152,6 +152,18 @@ def twin_under_binders(rng, vars_):
     return B(rng.choice(["and", "or", "imp", "EU"]), parts[0], parts[1])
 
 
+def repeat_next_to_colourful(rng, vars_):
+    """One closed sub-formula S first as the RIGHT operand of a conjunction whose left operand holds in some colours
+    only, then again elsewhere: what is computed (and possibly cached) for S must not depend on its neighbour."""
+    small = gen.FormulaGen(rng, vars_, p_quant=0.0, quant=[], unary=["not", "EX", "EF", "AG", "AF"], binary=["and", "or", "EU"])
+    S = small.gen(rng.randint(2, 4))
+    colourful = lambda: rng.choice([H("bind", "x", U("AX", V("x"))), H("bind", "x", U("AG", U("EF", V("x")))),
+                                    U("EF", small.gen(2)), U("AG", small.gen(2)), H("exists", "x", H("jump", "x", U("AX", V("x"))))])
+    second = rng.choice([copy.deepcopy(S), U("not", copy.deepcopy(S)), U("EX", copy.deepcopy(S)), B("or", copy.deepcopy(S), small.gen(2))])
+    return B(rng.choice(["or", "and", "imp"]), B("and", colourful(), S),
+             B(rng.choice(["and", "or"]), colourful(), second) if rng.random() < 0.6 else second)
+
+
 def until_over_literals(rng, vars_):
     """phi U psi with phi, psi small Boolean combinations of literals whose supports differ: paths that
     must LEAVE phi through one particular variable to reach psi (and variants under EX / binders)."""
@@ -416,6 +428,10 @@ def gen_c04(rng, probe, tier):
                 batch = [permuted_roles(rng, base, 2) for _ in range(rng.randint(1, 2))]
                 if rng.random() < 0.5:
                     batch.append(fg.gen(rng.randint(2, 6)))
+            elif j % 8 == 0:
+                # a closed sub-formula next to a colour-dependent conjunct and again on its own (in the formula and in the batch)
+                f0 = repeat_next_to_colourful(rng, m["vars"])
+                batch = [f0, copy.deepcopy(f0["a"]["b"])] + ([repeat_next_to_colourful(rng, m["vars"])] if rng.random() < 0.5 else [])
             else:
                 batch = overlapping_batch(rng, fg, rng.randint(2, 4))
             ctx = {l: rand_ctx_spec(rng) for l in ("p", "q", "d", "e")} if ext else {}
@@ -756,6 +772,13 @@ def gen_c18(rng, probe, tier):
                 f = H(rng.choice(["bind", "bind", "exists", "forall"]), "x", body)
                 if rng.random() < 0.5:
                     f = B(rng.choice(["and", "or", "EU"]), f, frag.gen(rng.randint(1, 4)))
+            if j % 5 == 2 and m["n"] <= 3:
+                # the self-loop-free variant prepares its evaluation context on its own (single-tree path): one open
+                # sub-formula at the same height with its variables in swapped roles, inside the fragment
+                f = permuted_roles(rng, gen.FormulaGen(rng, m["vars"], p_quant=0.0, quant=[], p_jump=0.15,
+                                                       unary=["not", "EF", "AG"], binary=["and", "or", "EU"]), nvars=2)
+            elif j % 5 == 3 and m["n"] <= 3:
+                f = twin_under_binders(rng, m["vars"]) if rng.random() < 0.5 else B("and", frag.gen(3), B("or", frag.gen(3), frag.gen(2)))
             k = k_for(f)
             cases.append({"id": "%s-l%d" % (m["id"], j), "net": m["id"], "kinds": ["unsafe"],
                           "calls": [call("formula_dirty", [f], k), call("unsafe_ex", [f], k)]})
@@ -796,6 +819,8 @@ def gen_c20(rng, probe, tier):
             f = fg.gen(rng.randint(2, 10))
             if j % 3 == 1:
                 f = until_over_literals(rng, m["vars"])
+            if j % 3 == 0:
+                f = repeat_next_to_colourful(rng, m["vars"])
             k = k_for(f)
             calls = [call(rng.choice(["formula", "formula_dirty"]), [f], k)]
             for c in range(2 ** m["pbits"]):
@@ -905,6 +930,16 @@ def gen_c14(rng, probe, tier):
                         s = synprops.mutate(rng, s)
                 elif x < 0.6:
                     s = synprops.random_strings(rng, 1)[0]
+                elif x < 0.72:
+                    # a missing connective: an OPERAND (proposition, constant, variable, wild-card, group) directly before
+                    # a quantifier / jump - not a formula, whatever the operand is (it must not be dropped silently)
+                    v = rng.choice(["x", "y"])
+                    operand = rng.choice([rng.choice(m["vars"]), "true", "nonvar", "%p%", "%missing%", "{" + v + "}",
+                                          "(" + rng.choice(m["vars"]) + " & " + rng.choice(m["vars"]) + ")", "(" + s + ")"])
+                    hyb = rng.choice(["!{%s}: AX {%s}", "3{%s}: (@{%s}: AX {%s})", "V{%s}: EF {%s}", "\\bind {%s}: {%s}", "!{%s} in %d%: AG EF {%s}"])
+                    s = operand + rng.choice([" ", "  ", ""]) + (hyb.replace("%s", v))
+                    if rng.random() < 0.3:
+                        s = rng.choice(["AG ", "~", "EF "]) + "(" + s + ")"
                 texts.append(s)
             ext = rng.random() < 0.6
             labels = [l for l in ("p", "q", "d") if rng.random() < 0.7]
